@@ -195,5 +195,14 @@ func main() {
 			other("name-boundaries", hostPair, s)
 			other("name-boundaries", labelPair, s)
 		})
+
+		// The C03 boundary families, in particular names whose raw length and
+		// whose ToASCII length fall on different sides of 253.
+		sn := sh()
+		gen.C03Names(!c.Quick(), func(fam, s string) {
+			if sn.Mine() {
+				other("c03-"+fam, hostPair, s)
+			}
+		})
 	})
 }
